@@ -148,4 +148,13 @@ PROPS = {
         level_text="Exhaustive over two bounded spaces (every byte string of length <= 5 (quick) / 6 (thorough) over a 29-symbol alphabet; every sequence of <= 5/6 JSON tokens) and generated-input search beyond them (mutated texts, grammar corners, exact nesting limits, whitespace-padded and damaged arguments of every public entry point): acceptance by Valid/Compact/Indent/Unmarshal and by the public functions must coincide with the recogniser. Exhaustive only within the stated bounds; exploration elsewhere.",
         level_note="Trusted: harness/ref.Valid (cross-checked against encoding/json.Valid on every input). Known finding (listed, not repaired): Patch.Apply* returns (doc, nil) for a zero-length document.",
     ),
+    "C17": dict(
+        pkg="c17",
+        units=[rapid("TestPropRoundTrip", 8000, 120000), rapid("TestPropTransforms", 20000, 300000), rapid("TestPropTypes", 15000, 250000), rapid("TestPropStreams", 15000, 250000),
+               fuzz("FuzzRoundTrip", 90), fuzz("FuzzToken", 90)],
+        assumptions=COMMON_ASSUME + ["encoding/json of the default toolchain (go1.23.5) is the reference for everything the fork shares with it; known, normalised differences: spelling of U+0008/U+000C, the distinct Number type (Decoder.UseNumber on the standard side); error message texts are not compared, only dynamic error types"],
+        technique="property-based testing (rapid): decode->encode round trip through an independent reader; byte-exact text-transform oracles; differential testing against encoding/json over reflect.StructOf-generated types with type-directed inputs and over Decoder/Encoder streams; native fuzzing in the thorough tier",
+        level_text="Generated-input search: (a) every decode function x target kind x encode function round trips generated texts (literals, code points, order; key lists in document order); (b) Compact/Indent/HTMLEscape equal independent byte-exact transforms and encoding/json; (c) on run-time generated struct/map/slice/pointer types with tags, Unmarshal errors, decoded values and Marshal/MarshalEscaped/MarshalIndent bytes equal encoding/json's; (d) Decoder (More, Token, Decode, Buffered, InputOffset) and Encoder traces equal encoding/json's under chunked reads. Exploration only.",
+        level_note="Trusted: harness/ref reader, encoding/json of go1.23.5 as differential reference, reflect.StructOf (types it cannot build are excluded and counted). omitzero (go1.24) and custom Marshaler types are not generated.",
+    ),
 }
